@@ -59,6 +59,58 @@ def caps_for(date, params, res, df):
     if kg is not None and "kindergeld_anz_ansprüche" in res:
         m = max(float(x) for x in kg.values()) if isinstance(kg, dict) else float(kg)
         out.append(("Kindergeld <= highest rate x claims", "kindergeld_m", m, "kindergeld_anz_ansprüche", 0.01))
+    # ---- health and long-term-care insurance: every assessment base is capped at the ceiling, every part of the
+    #      contribution is at most (highest total rate) x ceiling, the employee-side total at most twice that
+    #      (earnings or self-employment income AND pensions are assessed separately)
+    def leaves(x):
+        if isinstance(x, dict):
+            return [v for y in x.values() for v in leaves(y)]
+        return [float(x)] if isinstance(x, (int, float)) and not isinstance(x, bool) else []
+
+    ceil_kv = "_ges_krankenv_beitr_bemess_grenze_m"
+    if ceil_kv in res:
+        c = res[ceil_kv].to_numpy().astype(float)
+        for base in ("_ges_krankenv_bruttolohn_m", "_ges_krankenv_bruttolohn_reg_beschäftigt_m", "_ges_krankenv_bemessungsgrundlage_eink_selbständig", "_ges_krankenv_bemessungsgrundlage_rente_m"):
+            out.append(("assessment base <= ceiling", base, 1.0, ceil_kv, 0.01))
+        kv = rate.get("ges_krankenv")
+        if kv is not None:
+            gen = [v for k, v in kv.items() if "zusatz" not in k and "sonder" not in k] if isinstance(kv, dict) else [kv]
+            add = [v for k, v in kv.items() if "zusatz" in k or "sonder" in k] if isinstance(kv, dict) else []
+            r_kv = max(x for g in gen for x in leaves(g)) + sum(x for a in add for x in leaves(a))
+            for part in ("_ges_krankenv_beitr_arbeitnehmer_reg_beschäftigt_m", "ges_krankenv_beitr_selbstständig_m", "ges_krankenv_beitr_rentner_m", "ges_krankenv_beitr_arbeitgeber_m"):
+                out.append(("health contribution part <= total rate x ceiling", part, 1.0, r_kv * c, 0.01))
+            out.append(("health contribution <= 2 x total rate x ceiling", "ges_krankenv_beitr_arbeitnehmer_m", 1.0, 2 * r_kv * c, 0.01))
+        pv = rate.get("ges_pflegev")
+        if pv is not None:
+            lv = leaves(pv)
+            r_pv = 2 * max(lv) + (sum(lv) - max(lv) if len(lv) > 1 else 0.0)
+            for part in ("_ges_pflegev_beitr_arbeitnehmer_reg_beschäftigt_m", "ges_pflegev_beitr_selbstständig_m", "ges_pflegev_beitr_rentner_m", "ges_pflegev_beitr_arbeitgeber_m"):
+                out.append(("care contribution part <= total rate x ceiling", part, 1.0, r_pv * c, 0.01))
+            out.append(("care contribution <= 2 x total rate x ceiling", "ges_pflegev_beitr_arbeitnehmer_m", 1.0, 2 * r_pv * c, 0.01))
+    parts = ["ges_pflegev_beitr_arbeitnehmer_m", "ges_krankenv_beitr_arbeitnehmer_m", "ges_rentenv_beitr_arbeitnehmer_m", "arbeitsl_v_beitr_arbeitnehmer_m"]
+    if all(x in res for x in parts) and "sozialv_beitr_arbeitnehmer_m" in res:
+        tot = sum(res[x].to_numpy().astype(float) for x in parts)
+        out.append(("total employee contributions <= sum of the four branches", "sozialv_beitr_arbeitnehmer_m", 1.0, tot, 0.01))
+    # ---- transfers against the assessed need / entitlement
+    out.append(("ALG II before priority <= assessed need", "arbeitsl_geld_2_vor_vorrang_m_bg", 1.0, "arbeitsl_geld_2_regelbedarf_m_bg", 1e-6))
+    if "arbeitsl_geld_2_regelbedarf_m_bg" in res and "_grunds_im_alter_mehrbedarf_schwerbeh_g_m_eg" in res:
+        need = res["arbeitsl_geld_2_regelbedarf_m_bg"].to_numpy().astype(float) + res["_grunds_im_alter_mehrbedarf_schwerbeh_g_m_eg"].to_numpy().astype(float)
+        out.append(("Grundsicherung im Alter <= assessed need + additional need", "grunds_im_alter_m_eg", 1.0, need, 1.0))
+    out.append(("Unterhaltsvorschuss <= the child's entitlement", "unterhaltsvors_m", 1.0, "_unterhaltsvors_anspruch_kind_m", 1.0))
+    # ---- taxes
+    out.append(("income tax <= income tax without child allowance", "eink_st_y_sn", 1.0, "eink_st_ohne_kinderfreib_y_sn", 1.0))
+    try:
+        ab = float(params["abgelt_st"]["satz"])
+        out.append(("withholding tax on capital income <= rate x gross capital income", "abgelt_st_y_sn", ab, "kapitaleink_brutto_y_sn", 1.0))
+    except Exception:  # noqa: BLE001
+        pass
+    try:
+        sr = float(np.asarray(params["soli_st"]["soli_st"]["rates"])[0][-1])
+        if "eink_st_mit_kinderfreib_y_sn" in res:
+            basis = res["eink_st_mit_kinderfreib_y_sn"].to_numpy().astype(float) + (res["abgelt_st_y_sn"].to_numpy().astype(float) if "abgelt_st_y_sn" in res else 0.0)
+            out.append(("solidarity surcharge <= nominal rate x (income tax + withholding tax)", "soli_st_y_sn", 1.0, sr * basis, 1.0))
+    except Exception:  # noqa: BLE001
+        pass
     return [c for c in out if c]
 
 
@@ -142,8 +194,10 @@ def run(tier):
     chk = Check("C16", tier, LEVEL)
     rnd = random.Random(chk.seed * 65537 + 16)
     quick = tier == "quick"
-    dates = ["2023-01-01"] + rnd.sample([d for d in DATES if d != "2023-01-01"], 3 if quick else len(DATES) - 1)
-    njobs = 28 if quick else 420
+    from c04 import change_dates_for
+
+    dates = change_dates_for(rnd, quick, 3, nreg=1)
+    njobs = 35 if quick else 16 * len(dates)
     outs = pool_map(job, sorted([(dates[t % len(dates)], rnd.randrange(1 << 30), t, str(chk.work)) for t in range(njobs)]))
     seen = set()
     for info in outs:
@@ -155,14 +209,15 @@ def run(tier):
         chk.notes["trace_tlc_states"] = chk.notes.get("trace_tlc_states", 0) + info["tlc_states"]
         chk.distinct(f"{info['date']}:{info['mode']}:{info['tid']}")
         for m, clause in info["bad"]:
-            sig = f"C16|{clause}|node={m['node']}" + (f"|cap={m['cap']}" if "cap" in m else "")
+            neg = any(float(p.get(k, 0.0) or 0.0) < 0 for p in info["persons"] for k in ("eink_vermietung_m", "eink_selbst_m", "kapitaleink_brutto_m", "sonstig_eink_m", "bruttolohn_m"))
+            sig = f"C16|{clause}|node={m['node']}" + (f"|cap={m['cap']}|negative_income_input={'yes' if neg else 'no'}" if "cap" in m else "")
             if sig in seen:
                 continue
             seen.add(sig)
             chk.violation(sig, f"{m['node']}: {clause}" + (f" ({m['cap']})" if "cap" in m else "") + f" on a {info['mode']} population at {info['date']}", {"date": info["date"], "mode": info["mode"], "persons": info["persons"], **m})
         chk.sample({"date": info["date"], "mode": info["mode"], "persons": info["n"], "columns": info["nout"], "caps": info["ncap"]})
     chk.cov["rule"] = (
-        "corner populations in seven modes (all incomes zero; 1e7 yearly income with 1e9 wealth; negative rental income; ages 67-100 pensioners; couple with 6-10 children; mixed; unemployed former high earners) over random structures, all nodes with rounding on, at 4 (thorough 10) dates; "
+        "corner populations in seven modes (all incomes zero; 1e7 yearly income with 1e9 wealth; negative rental income; ages 67-100 pensioners; couple with 6-10 children; mixed; unemployed former high earners) over random structures, all nodes with rounding on, at 5 seeded change / regime dates (thorough: every change date 2015-2025 outside 2017H1); "
         "every numeric column checked Finite, default targets NonNegative, 6-8 cap relations per run; distinct_nontrivial = distinct (date, mode, population)"
     )
     chk.assumptions += ["caps are a hand-written table of relations (see caps_for); the 'e.g.' list of the statement is covered first", "non-negativity tolerance 1e-9"]
